@@ -2,7 +2,7 @@
     (harness/cmd/c08) writes [coq/gen/Cases_C08_*.v] with values of [case]
     holding the inputs it gave to the implementation AND what the
     implementation returned; [check] re-runs the model. *)
-From CSS Require Import Lib.Base Lib.Cases Model.Comb.
+From CSS Require Import Lib.Base Lib.Cases Model.Comb Model.CombHeap.
 
 Inductive case : Type :=
 (* full walk from the first combination: m, k, (digest, visited, exhausted) and amount *)
@@ -15,7 +15,27 @@ Inductive case : Type :=
 | CSeek (m : Z) (k : nat) (id : Z) (r : obs (list Z))
 | CAmount (m : Z) (k : nat) (amount : Z)
 | CFlipBools (s : list Z) (v : list bool) (r : obs (list bool))
-| CFlipBytes (s : list Z) (v : list Z) (r : obs (list Z)).
+| CFlipBytes (s : list Z) (v : list Z) (r : obs (list Z))
+(* a sequence of calls on several iterators (Model/CombHeap.v), all starting from nothing:
+   what every call returned, and - read AFTER the last call - every combination that was handed
+   out on the way and the current combination of every iterator *)
+| CProg (ops : list op) (r : obs (list ev * list (list Z) * list (list Z))).
+
+Definition ev_eqb (a b : ev) : bool :=
+  match a, b with
+  | ENone, ENone => true
+  | EBool x, EBool y => Bool.eqb x y
+  | EZ x, EZ y => x =? y
+  | _, _ => false
+  end.
+
+Definition prog_obs (ops : list op) : outcome (list ev * list (list Z) * list (list Z)) :=
+  bind (run ops hinit) (fun '(st, evs) => Ok (evs, results st, currents st)).
+
+Definition prog_eqb (a b : list ev * list (list Z) * list (list Z)) : bool :=
+  let '(e1, r1, c1) := a in
+  let '(e2, r2, c2) := b in
+  list_eqb ev_eqb e1 e2 && list_eqb zlist_eqb r1 r2 && list_eqb zlist_eqb c1 c2.
 
 (* fuel: one more than the number of combinations (capped); never a nat literal *)
 Definition walk_fuel (m : Z) (k : nat) : nat := Z.to_nat (Z.min (amount64 m k + 1) 4000000).
@@ -32,6 +52,7 @@ Definition check (c : case) : bool :=
   | CAmount m k am => amount64 m k =? am
   | CFlipBools s v r => obs_match (list_eqb Bool.eqb) r (flip_bools s v)
   | CFlipBytes s v r => obs_match zlist_eqb r (flip_bytes s v)
+  | CProg ops r => obs_match prog_eqb r (prog_obs ops)
   end.
 
 Definition mismatches := mismatches_by check.
